@@ -1,0 +1,22 @@
+//go:build verif
+// +build verif
+
+// Contracts for package masswallet, checked by /verif/cmd/govc (comment-only file; see /verif/DESIGN.md).
+package masswallet
+
+// ---- C16 X2: scripts the wallet builds read back (by the consensus library's template matching) to exactly the
+// address they were built for.  decKind / decScript: kind and script address denoted by an address string
+// (see /verif/contracts/ext/massutil_address.spec).
+//@ func PayToWitnessV0Address
+//@   props C16
+//@   requires netParams != nil
+//@   dead returns 1
+//@   ensures err != nil ==> pkScript == nil
+//@   ensures[C16] err == nil ==> ghost("decKind", encodedAddr) == 1 && clsOf(pkScript) == mathint(txscript.WitnessV0ScriptHashTy) && ghosts("scriptHash32", strOf(pkScript)) == ghosts("decScript", encodedAddr)
+
+//@ func amountToTxOut
+//@   props C16
+//@   requires config.ChainParams != nil && validAmt(amount)
+//@   ensures err != nil ==> result == nil
+//@   ensures[C16] err == nil ==> result != nil && result.Value == amount.IntValue() && result.Value != 0
+//@   ensures[C16] err == nil ==> ghost("decKind", encodedAddr) == 1 && clsOf(result.PkScript) == mathint(txscript.WitnessV0ScriptHashTy) && ghosts("scriptHash32", strOf(result.PkScript)) == ghosts("decScript", encodedAddr)
